@@ -84,14 +84,16 @@ Hypothesis Hnd : NoDup (map fst cfs).
 Hypothesis Hcfs : forall p, is_real root p = true -> fs_get cfs p = getf_i root tab p.
 Hypothesis Hcfs_real : forall p ls, fs_get cfs p = Some ls -> is_real root p = true.
 (* every regular file of the tree has an entry in the content table *)
-Hypothesis Htotal : forall p k, node_at root p = Some (File k) -> clookup k tab <> None.
+Hypothesis Htotal : Forall (fun p => match node_at root p with Some (File k) => clookup k tab <> None | _ => True end) (walk root []).
 
 Lemma dirs_real : Forall (fun d => is_real root d = true) dirs.
 Proof. eapply Forall_impl; [|exact Hdirs]. intros d [H _]. exact H. Qed.
 
-Lemma getf_of_file p k : node_at root p = Some (File k) -> exists ls, getf_i root tab p = Some ls.
+Lemma getf_of_file p k : p <> [] -> node_at root p = Some (File k) -> exists ls, getf_i root tab p = Some ls.
 Proof.
-  intros En. unfold getf_i, entry_at. rewrite En. pose proof (Htotal p k En) as H.
+  intros Hne En. unfold getf_i, entry_at. rewrite En.
+  pose proof (node_at_walk p root [] (File k) En Hne) as Hw. cbn [app] in Hw.
+  rewrite Forall_forall in Htotal. pose proof (Htotal p Hw) as H. rewrite En in H.
   destruct (clookup k tab) as [[ls ws]|]; [exists ls; reflexivity|congruence].
 Qed.
 
@@ -100,10 +102,12 @@ Proof.
   intros Hin. pose proof (counted_real root is_src link_fuel dirs p Hwf dirs_real Hin link_fuel) as Hrp.
   assert (Hr : is_real root p = true) by (eapply realpath_is_real; eauto).
   unfold counted in Hin. apply filter_In in Hin. destruct Hin as [Hin _].
-  unfold iter in Hin. apply in_flat_map in Hin. destruct Hin as (d & _ & Hin). apply filter_In in Hin. destruct Hin as [_ Hc].
+  unfold iter in Hin. apply in_flat_map in Hin. destruct Hin as (d & _ & Hin). apply filter_In in Hin. destruct Hin as [Hrg Hc].
+  assert (Hne : p <> []).
+  { unfold rglob in Hrg. destruct (node_at root d) as [n0|]; [|contradiction]. apply (walk_nonempty _ _ _ Hrg). }
   unfold contains in Hc. rewrite Hrp in Hc. apply andb_true_iff in Hc. destruct Hc as [Hc Hpre]. apply andb_true_iff in Hc. destruct Hc as [Hf Hs].
   destruct (node_at root p) as [[k|kk|a t]|] eqn:En; try discriminate.
-  destruct (getf_of_file p k En) as (ls & Hg).
+  destruct (getf_of_file p k Hne En) as (ls & Hg).
   unfold members_S. apply filter_In. split.
   - rewrite <- (Hcfs p Hr) in Hg. apply fs_get_some_in in Hg. apply in_map_iff. exists (p, ls). auto.
   - unfold member_S. rewrite Hs, Hpre. reflexivity.
@@ -151,7 +155,7 @@ Theorem setmap_equal (root : fnode) (tab_a tab_c : ctable) (cfs : fsys) (is_src 
   NoDup (map fst cfs) ->
   (forall p, is_real root p = true -> fs_get cfs p = getf_i root tab_c p) ->
   (forall p ls, fs_get cfs p = Some ls -> is_real root p = true) ->
-  (forall p k, node_at root p = Some (File k) -> clookup k tab_c <> None) ->
+  Forall (fun p => match node_at root p with Some (File k) => clookup k tab_c <> None | _ => True end) (walk root []) ->
   find_A (rp_i root) (getf_i root tab_a) fuel (iter root is_src link_fuel dirs) c_a = Ok ms ->
   analyse_S cfs fuel c_c = Ok msS ->
   ms = msS /\
